@@ -8,7 +8,7 @@ use serde_json::{json, Value};
 use crate::engine::{catch, h64, par_range, run_generated, Ctx, Stats};
 use crate::oracle::page::{bit_pos, bpc, data_len, new_bytes, total_len, REAL_SIZES};
 
-pub const RULE: &str = "sizes: every width x height in 0..=32 x 0..=34 (quick) / 0..=64 x 0..=48 (thorough), the 11 real sizes, 1x255, 255x1, 300x9, 1000x64 pages taller than 256 rows (2x257, 3x300, 1x1030) and dimensions within 10 of u32::MAX (against small buffers only); for each size: new-page bytes for several ids (all 256 ids on selected sizes) against the closed-form layout, every pixel set alone on a blank page must flip exactly bit y%8 of byte 4+x*ceil(h/8)+y/8 (bijection pixels<->bits), from_bytes with candidate lengths {0, total-16, total-1, total, total+1, total+16, unpadded} must succeed exactly for the padded length, expose exactly the given bytes and equal the page that produced them (also after generated edits). Non-trivial = height not a multiple of 8, or data already on a 16-byte boundary, or >= 2 bytes per column; distinct by size (and content hash for generated cases)";
+pub const RULE: &str = "sizes: every width x height in 0..=32 x 0..=34 (quick) / 0..=64 x 0..=48 (thorough), the 11 real sizes, 1x255, 255x1, 300x9, 1000x64 pages taller than 256 rows (2x257, 3x300, 1x1030) and dimensions within 10 of u32::MAX (against small buffers only); for each size: new-page bytes for several ids (all 256 ids on selected sizes) against the closed-form layout, every pixel set alone on a blank page must flip exactly bit y%8 of byte 4+x*ceil(h/8)+y/8 (bijection pixels<->bits), from_bytes with candidate lengths {0, total-16, total-1, total, total+1, total+16, unpadded} must succeed exactly for the padded length, expose exactly the given bytes and equal the page that produced them (also after generated histories of pixel edits and whole-page fills on pages that came from new, from borrowed and from owned bytes). Non-trivial = height not a multiple of 8, or data already on a 16-byte boundary, or >= 2 bytes per column; distinct by size (and content hash for generated cases)";
 pub const ASSUMPTIONS: &[&str] = &["the closed-form layout in oracle/page.rs is a correct reading of the C07 statement"];
 
 #[derive(Serialize, Deserialize, Debug, Clone, PartialEq, Eq, Hash)]
@@ -218,23 +218,68 @@ pub struct EditedCase {
     pub seed: u64,
     /// pixels to set, as selectors mapped into the page
     pub sets: Vec<(u16, u16, bool)>,
+    /// whole-page fills: (position in the edit sequence as a selector, value)
+    #[serde(default)]
+    pub fills: Vec<(u16, bool)>,
+    /// 0 = from_bytes over borrowed generated bytes, 1 = Page::new, 2 = from_bytes over an owned vector
+    #[serde(default)]
+    pub origin: u8,
+}
+
+/// set_all_pixels as one edit of the generated history: header and padding stay, every real pixel bit takes the
+/// value; what the unused bits of a column's last byte hold is left to the implementation (no statement fixes it)
+fn fill_step(page: &mut Page, model: &mut Vec<u8>, w: u32, h: u32, v: bool, st: &mut Stats) -> Result<(), String> {
+    catch(|| page.set_all_pixels(v)).map_err(|p| format!("set_all_pixels({v}) panicked: {p}"))?;
+    st.eval();
+    let got = page.as_bytes();
+    let d = data_len(w, h);
+    if got.len() != model.len() || got[..4] != model[..4] || got[d..] != model[d..] {
+        return Err(format!("set_all_pixels({v}) on a {w}x{h} page changed the header, the padding or the length"));
+    }
+    for i in 4..d {
+        let m = crate::oracle::page::pixel_mask(i, h);
+        if got[i] & m != if v { m } else { 0 } {
+            return Err(format!("after set_all_pixels({v}) on a {w}x{h} page byte {i} is {:#04x} (pixel bits {m:#04x})", got[i]));
+        }
+    }
+    *model = got.to_vec();
+    Ok(())
 }
 
 /// generated content: bytes -> page -> edits -> bytes -> page; layout of every touched pixel
 pub fn check_edited(c: &EditedCase, st: &mut Stats) -> Result<(), String> {
     let (w, h) = (c.w, c.h);
     let total = total_len(w, h);
-    let buf: Vec<u8> = (0..total).map(|i| h64(&(c.seed, i as u64)) as u8).collect();
-    let mut page = catch(|| Page::from_bytes(w, h, &buf[..]))
-        .map_err(|p| format!("from_bytes panicked: {p}"))?
-        .map_err(|e| format!("from_bytes({w},{h}) rejected {total} bytes: {e}"))?;
+    let buf: Vec<u8> = if c.origin % 3 == 1 {
+        new_bytes(c.seed as u8, w, h)
+    } else {
+        (0..total).map(|i| h64(&(c.seed, i as u64)) as u8).collect()
+    };
+    let mut page = match c.origin % 3 {
+        1 => catch(|| Page::new(PageId(c.seed as u8), w, h)).map_err(|p| format!("Page::new panicked: {p}"))?,
+        2 => catch(|| Page::from_bytes(w, h, buf.clone()))
+            .map_err(|p| format!("from_bytes panicked: {p}"))?
+            .map_err(|e| format!("from_bytes({w},{h}) rejected {total} owned bytes: {e}"))?,
+        _ => catch(|| Page::from_bytes(w, h, &buf[..]))
+            .map_err(|p| format!("from_bytes panicked: {p}"))?
+            .map_err(|e| format!("from_bytes({w},{h}) rejected {total} bytes: {e}"))?,
+    };
     st.eval();
     if page.as_bytes() != &buf[..] {
         return Err("from_bytes does not expose exactly the bytes given".into());
     }
     let mut model = buf.clone();
+    let fill_at = |k: usize| c.fills.iter().filter(move |f| crate::engine::pick_idx(f.0, c.sets.len() + 1) == k).map(|f| f.1);
+    if w == 0 || h == 0 {
+        for v in c.fills.iter().map(|f| f.1) {
+            fill_step(&mut page, &mut model, w, h, v, st)?;
+        }
+    }
     if w > 0 && h > 0 {
-        for &(sx, sy, v) in &c.sets {
+        for (k, &(sx, sy, v)) in c.sets.iter().enumerate() {
+            for fv in fill_at(k) {
+                fill_step(&mut page, &mut model, w, h, fv, st)?;
+            }
             let x = crate::engine::pick_idx(sx, w as usize) as u32;
             let y = crate::engine::pick_idx(sy, h as usize) as u32;
             let (bi, bit) = bit_pos(x, y, h);
@@ -257,11 +302,27 @@ pub fn check_edited(c: &EditedCase, st: &mut Stats) -> Result<(), String> {
             }
         }
     }
+    if w > 0 && h > 0 {
+        for fv in fill_at(c.sets.len()) {
+            fill_step(&mut page, &mut model, w, h, fv, st)?;
+        }
+    }
     let rebuilt = catch(|| Page::from_bytes(w, h, page.as_bytes().to_vec()))
         .map_err(|p| format!("from_bytes panicked on a page's own bytes: {p}"))?
         .map_err(|e| format!("from_bytes rejects a page's own bytes: {e}"))?;
-    if rebuilt != page || rebuilt.as_bytes() != page.as_bytes() {
-        return Err(format!("from_bytes({w},{h}, p.as_bytes()) != p after edits"));
+    if rebuilt != page || page != rebuilt || rebuilt.as_bytes() != page.as_bytes() {
+        return Err(format!(
+            "from_bytes({w},{h}, p.as_bytes()) != p after {} pixel edits and {} whole-page fills (origin {})",
+            c.sets.len(),
+            c.fills.len(),
+            c.origin % 3
+        ));
+    }
+    // the same through a borrowed view of the page's bytes, and for a clone of the page
+    let bytes_now = page.as_bytes().to_vec();
+    let borrowed = Page::from_bytes(w, h, &bytes_now[..]).map_err(|e| format!("from_bytes rejects a page's own bytes (borrowed): {e}"))?;
+    if borrowed != page || page.clone() != borrowed {
+        return Err(format!("from_bytes({w},{h}, &p.as_bytes()) != p after {} pixel edits and {} whole-page fills", c.sets.len(), c.fills.len()));
     }
     if nontrivial_size(w, h) {
         st.nontrivial(h64(c));
@@ -507,8 +568,10 @@ pub fn run(ctx: &Ctx) {
                 ],
                 any::<u64>(),
                 proptest::collection::vec((any::<u16>(), any::<u16>(), any::<bool>()), 0..30),
+                proptest::collection::vec((any::<u16>(), any::<bool>()), 0..3),
+                0u8..3,
             )
-                .prop_map(|((w, h), seed, sets)| EditedCase { w, h, seed, sets })
+                .prop_map(|((w, h), seed, sets, fills, origin)| EditedCase { w, h, seed, sets, fills, origin })
         },
         |c, st| check_edited(c, st),
     );
